@@ -28,3 +28,8 @@ pub mod c06 {
     use super::*;
     include!("c06.rs");
 }
+pub mod c07 {
+    #[allow(unused_imports)]
+    use super::*;
+    include!("c07.rs");
+}
